@@ -154,3 +154,107 @@ disp_inst!(
     c08_dispatch_pending_len40 = (2, 40),
     c08_dispatch_linger_len00 = (3, 0), c08_dispatch_linger_len01 = (3, 1), c08_dispatch_linger_len24 = (3, 24), c08_dispatch_linger_len40 = (3, 40)
 );
+
+// ===================================================================================================== C02 / C03 at PeerCrypto level
+use crate::vh_common::nonce_val;
+
+/// PeerCrypto::send_message on an encrypted connection: the message type byte and the whole payload go through the
+/// seal (exactly one seal over type + payload), the envelope header is in front; on an unencrypted connection (and only
+/// there) the bytes leave as they are
+fn send_message_seals(n: usize, unencrypted: bool) {
+    let payload: [u8; 8] = kani::any();
+    let type_: u8 = kani::any();
+    kani::assume(type_ != MESSAGE_TYPE_ROTATION);
+    let mut buf = MsgBuffer::new(100);
+    buf.set_length(n);
+    buf.message_mut().copy_from_slice(&payload[..n]);
+    let core = if unencrypted { None } else { Some(corev::outsider_core()) };
+    let mut pc: PeerCrypto<NoPayload> = PeerCrypto { node_id: [1; 16], init: None, rotation: None, unencrypted, core, rotate_counter: 0 };
+    let res = okf(pc.send_message(type_, &mut buf));
+    assert!(res.is_some());
+    if unencrypted {
+        assert!(ring::aead::model_seal_count() == 0);
+        assert!(buf.get_start() == 99 && buf.len() == n + 1 && buf.message()[0] == type_);
+    } else {
+        assert!(ring::aead::model_seal_count() == 1);
+        let rec = ring::aead::model_seal_record(0);
+        // type byte + payload, nothing left outside the seal
+        assert!(rec.len == n + 1);
+        assert!(buf.get_start() == 99 - 8 && buf.len() == n + 1 + 8 + 16);
+        // the wire bytes behind the header are the ciphertext the AEAD produced (first 8 bytes compared)
+        let m = buf.message();
+        let mut ct = [0u8; 8];
+        let k = if n + 1 < 8 { n + 1 } else { 8 };
+        ct[..k].copy_from_slice(&m[8..8 + k]);
+        assert!(u64::from_le_bytes(ct) == rec.ct[0] & if k == 8 { u64::MAX } else { (1u64 << (8 * k)) - 1 });
+    }
+    std::mem::forget(pc);
+    witness!();
+}
+#[cfg_attr(kani, kani::proof, kani::unwind(34))]
+pub fn c02_send_message_seals_type_and_payload_n4() {
+    send_message_seals(4, false)
+}
+#[cfg_attr(kani, kani::proof, kani::unwind(34))]
+pub fn c02_send_message_seals_type_and_payload_n0() {
+    send_message_seals(0, false)
+}
+#[cfg_attr(kani, kani::proof, kani::unwind(34))]
+pub fn c02_send_message_plain_only_when_flagged() {
+    send_message_seals(4, true)
+}
+
+/// PeerCrypto::every_second drives the replay-window tick of the connection's core (all four slots)
+#[cfg_attr(kani, kani::proof, kani::unwind(34))]
+pub fn c03_peercrypto_tick_reaches_core() {
+    let seen: [[u8; 12]; 4] = kani::any();
+    let mut core = corev::outsider_core();
+    let mut i = 0;
+    while i < 4 {
+        kani::assume(nonce_val(&seen[i]) < (1u128 << 96) - 1);
+        corev::set_seen(&mut core, i, seen[i]);
+        i += 1;
+    }
+    let mut pc: PeerCrypto<NoPayload> = PeerCrypto { node_id: [1; 16], init: None, rotation: None, unencrypted: false, core: Some(core), rotate_counter: 0 };
+    let mut out = MsgBuffer::new(100);
+    let r = okf(pc.every_second(&mut out));
+    assert!(r.is_some());
+    let core = pc.core.as_ref().unwrap();
+    let mut i = 0;
+    while i < 4 {
+        assert!(corev::next_min(core, i) == nonce_val(&seen[i]) + 1);
+        i += 1;
+    }
+    std::mem::forget(pc);
+    witness!();
+}
+
+/// C18: the key pair a node derives from its configured password is the key pair `genkey --password` prints for the
+/// same password (every n-character ASCII password, whitespace and control characters included)
+fn password_keys_match(n: usize) {
+    let pwb: [u8; 2] = kani::any();
+    kani::assume(pwb[0] < 128 && pwb[1] < 128);
+    let pw = ::std::str::from_utf8(&pwb[..n]).unwrap();
+    let (privkey, pubkey) = Crypto::generate_keypair(Some(pw));
+    let node = Crypto::keypair_from_password(pw);
+    let printed_pub = okf(Crypto::parse_public_key(&pubkey));
+    assert!(printed_pub.is_some());
+    assert!(same32(node.public_key().as_ref(), &printed_pub.unwrap()));
+    std::mem::forget(privkey);
+    std::mem::forget(pubkey);
+    std::mem::forget(node);
+    vcover!(n > 0 && pwb[n - 1] == b' ', "password_with_trailing_blank");
+    witness!();
+}
+#[cfg_attr(kani, kani::proof, kani::unwind(34), kani::stub(crate::util::to_base62, to_base62_contract), kani::stub(crate::util::from_base62, from_base62_contract))]
+pub fn c18_password_keys_match_printed_keys_len1() {
+    password_keys_match(1)
+}
+#[cfg_attr(kani, kani::proof, kani::unwind(34), kani::stub(crate::util::to_base62, to_base62_contract), kani::stub(crate::util::from_base62, from_base62_contract))]
+pub fn c18_password_keys_match_printed_keys_len2() {
+    password_keys_match(2)
+}
+#[cfg_attr(kani, kani::proof, kani::unwind(34), kani::stub(crate::util::to_base62, to_base62_contract), kani::stub(crate::util::from_base62, from_base62_contract))]
+pub fn c18_password_keys_match_printed_keys_empty() {
+    password_keys_match(0)
+}
